@@ -26,7 +26,7 @@ RULE = ('simulated libraries with known truth: 1-8 cells, 1-40 sites on both str
 ASSUMPTIONS = ['the simulator is the truth (cell, site, strand, UMI by construction)',
                'for hamming>0 / radius>0 only soundness is demanded (chain linkage), for hamming 0 and radius 0 exact equality of the partition']
 MIN_NONTRIVIAL = {'quick': 60, 'thorough': 2000}
-REQUIRED_MONITORS = ['history:peek_then_full_pass', 'lib:molecules_of_more_than_255_fragments', 'eject:interval_shrunk', 'partition:no_split_checked', 'class:plain_fragment', 'option:allow_cycle_shift', 'lib:hard_clipped_fragments', 'input:arbitrary_order_never_ejected', 'class:plain_paired_inserts', 'lib:plain_copies_with_mates_running_past_the_insert', 'hook:Molecule.write_tags', 'partition:exact_compared', 'partition:soundness_checked', 'tags:molecules_checked',
+REQUIRED_MONITORS = ['lib:plain_inserts_on_the_first_or_last_base_of_a_contig', 'history:peek_then_full_pass', 'lib:molecules_of_more_than_255_fragments', 'eject:interval_shrunk', 'partition:no_split_checked', 'class:plain_fragment', 'option:allow_cycle_shift', 'lib:hard_clipped_fragments', 'input:arbitrary_order_never_ejected', 'class:plain_paired_inserts', 'lib:plain_copies_with_mates_running_past_the_insert', 'hook:Molecule.write_tags', 'partition:exact_compared', 'partition:soundness_checked', 'tags:molecules_checked',
                      'history:input_with_duplicate_bits', 'history:retagged', 'cli:records_checked', 'cap:overflow_molecules']
 SHARD_TIMEOUT = {'quick': 900, 'thorough': 5400}
 
@@ -128,11 +128,16 @@ def plain_insert_library(r, case_id, contigs, d):
     recs, truths = [], {}
     rid = 1
     used = defaultdict(set)
-    for _ in range(r.randint(3, 30)):
+    for it_ in range(r.randint(3, 30)):
         name, ln = r.choice(contigs)
         ref = gen.get(name)
         ins = r.choice([r.randint(12, 40), r.randint(20, 120), r.randint(100, 400)])
         s = r.randrange(70, ln - ins - 70)
+        if it_ < 2:
+            # an insert that begins on the very first base of the contig (coordinate 0), one that ends on its last base
+            ins = max(ins, 60)
+            s = 0 if it_ == 0 else ln - ins
+            PLAIN_EDGE[0] += 1
         e = s + ins
         cell, reverse = r.randint(1, 3), r.random() < 0.5
         if any(x in used[(name, cell, reverse)] for x in (('s', s), ('e', e))):
@@ -169,6 +174,8 @@ def plain_insert_library(r, case_id, contigs, d):
 
 
 PLAIN_PAST = [0]
+PLAIN_EDGE = [0]
+PLAIN_EDGE = [0]
 
 
 def run_case(case):
@@ -202,9 +209,11 @@ def run_case(case):
     if plain_inserts:
         method, radius, cap, deep = 'plain', 0, None, False
         PLAIN_PAST[0] = 0
+        PLAIN_EDGE[0] = 0
         gen, recs, truths = plain_insert_library(r, case['i'] + 1, contigs, d)
         acc.count('class:plain_paired_inserts')
         acc.count('lib:plain_copies_with_mates_running_past_the_insert', PLAIN_PAST[0])
+        acc.count('lib:plain_inserts_on_the_first_or_last_base_of_a_contig', PLAIN_EDGE[0])
     else:
       gen, recs, truths = F.simulate_library(
         r, method='nla' if method == 'plain' else method, contigs=contigs, n_cells=r.randint(1, 8) if not deep else 1, n_sites=n_sites, umi_len=r.choice([3, 3, 6]),
